@@ -208,7 +208,9 @@ def check(ctx):
         if c == "Custom" and not any("mappings" in x and "not(" not in x for x in conds[-1:]):
             pass
     cust = [render(sv) for conds, sv in ev.fn_paths(zres("visit_type"), None, zres) if constructor_of(conds) == "Custom"]
-    if any(re.fullmatch(r"‹\w+›Schema", x) for x in cust):
+    # every alternative that prints the type's own name (not the mapping's target) is the schema reference
+    odd_c = [x for x in cust if not re.fullmatch(r"‹\w+›Schema", x) and re.search(r"‹\w+›", re.sub(r"‹\w+\[‹\w+›\]›", "", x))]
+    if any(re.fullmatch(r"‹\w+›Schema", x) for x in cust) and not odd_c:
         r1.ok("ZodVisitor: unmapped custom type -> {name}Schema")
     else:
         r1.bad(V(r1.id, "ZodVisitor::visit_custom", "custom-reference:%s" % "|".join(sorted(set(cust))), "an unmapped custom type is not rendered as {name}Schema: %s" % cust))
@@ -312,6 +314,35 @@ def check(ctx):
         r2.ok("channel keys: %s in both modes" % sorted(ca))
     else:
         r2.bad(V(r2.id, "zod/partials/type_aliases.ts.tera", "channel-keys:%s≠%s" % (sorted(cb), sorted(ca)), "channel keys differ: plain %s, zod %s" % (sorted(ca), sorted(cb))))
+    # the Zod `XParams` type has the plain interface's keys for every (has parameters, has channels) combination: the parameter keys through
+    # z.infer<typeof XParamsSchema>, the channel keys through a loop over command.channels — whichever branch structure spells the four cases
+    ta_paths = T.paths("zod/partials/type_aliases.ts.tera") or []
+    seen_combo = {}
+    for p_ in ta_paths:
+        for it in p_.items:
+            if it[0] != "loop" or it[2] != "commands":
+                continue
+            for bp in it[3]:
+                if not consistent(bp.conds):
+                    continue
+                cd = dict(bp.conds)
+                hp, hc = cd.get("command.parameters|length > 0"), cd.get("command.channels|length > 0")
+                flat = bp.flat(loop=lambda it2: "⟪loop %s⟫" % it2[2] + "".join(b2.flat() for b2 in it2[3][:1]))
+                infer = "z.infer<typeof ⟦command.tsTypeName⟧ParamsSchema>" in flat
+                chans = "⟪loop command.channels⟫" in flat and "⟦channel.serializedParameterName" in flat
+                for P_ in ([hp] if hp is not None else [True, False]):
+                    for C_ in ([hc] if hc is not None else [True, False]):
+                        seen_combo.setdefault((P_, C_), []).append((infer, chans, bool(flat.strip())))
+    for combo in [(True, True), (True, False), (False, True), (False, False)]:
+        alts = seen_combo.get(combo, [])
+        want = (combo[0], combo[1])
+        got = sorted(set((a[0], a[1]) for a in alts if a[2])) or [(False, False)]
+        if got == [want]:
+            r2.ok("zod XParams for parameters=%s channels=%s: z.infer=%s, channel keys=%s" % (combo[0], combo[1], want[0], want[1]))
+        else:
+            r2.bad(V(r2.id, "zod/partials/type_aliases.ts.tera", "params-type-keys:%s%s:%s" % ("p" if combo[0] else "-", "c" if combo[1] else "-", got),
+                     "for a command with parameters=%s and channels=%s the Zod `XParams` type is built with (z.infer, channel loop) = %s; the plain interface has the parameter keys iff parameters and the channel keys iff channels"
+                     % (combo[0], combo[1], got)))
     na = decl_names("typescript/partials/interface.tera") | decl_names("typescript/partials/enum.tera")
     nb = decl_names("zod/partials/schema.ts.tera")
     # plain mode declares inside `for struct in structs` (the partial sees `struct.name`, directly or through a `set`); the Zod partial is rendered from
